@@ -4,9 +4,9 @@ package chain
 // constructors exactly as a real posmint application (pocket-core) does. Harness code, trusted.
 
 import (
-	"github.com/pokt-network/posmint/store/rootmulti"
 	"encoding/json"
 	"fmt"
+	"github.com/pokt-network/posmint/store/rootmulti"
 	"sort"
 	"time"
 
